@@ -40,6 +40,26 @@ theorem c22_always_ready (c : Cfg) (s : State) (i : In) :
     (step c s i).2.writes = i.writes.map Option.isSome := by
   simp [step, List.map_map, Function.comp_def]
 
+-- OBLIGATION c22_ports_agree : two read ports reading the same address in the same cycle return the same word (for every port count; the result does not depend on the port)
+theorem c22_ports_agree (c : Cfg) (s : State) (i : In) (k k' a : Nat)
+    (hk : i.reads[k]? = some (some a)) (hk' : i.reads[k']? = some (some a)) :
+    (step c s i).2.reads[k]? = (step c s i).2.reads[k']? := by
+  simp [step, hk, hk']
+
+-- OBLIGATION c22_reads_pure : reads have no effect on the contents - the state after a cycle does not depend on the reads attempted in it
+theorem c22_reads_pure (c : Cfg) (s : State) (rs rs' : List (Option Nat)) (ws : List (Option Wr)) :
+    (step c s ⟨rs, ws⟩).1 = (step c s ⟨rs', ws⟩).1 := by
+  simp [step]
+
+-- OBLIGATION c22_idle_stable : a cycle without writes leaves every row unchanged, so a later read still returns the latest completed write
+theorem c22_idle_stable (c : Cfg) (s : State) (rs : List (Option Nat)) (n : Nat) :
+    (step c s ⟨rs, List.replicate n none⟩).1 = s := by
+  induction n with
+  | zero => simp [step, wrAll]
+  | succ n ih =>
+    simp only [step, List.replicate_succ] at ih ⊢
+    simpa [wrAll, wrOpt] using ih
+
 /-- non-vacuity: 2 read / 2 write ports, 2 chunks of 4 bits; a full write, then a partial write
     to the same row while another port writes a different row; the read sees 0xA5 ↦ 0xA7 -/
 example :
@@ -57,3 +77,6 @@ end TxV.AsyncMemoryBank
 #print axioms TxV.AsyncMemoryBank.c22_read_latest
 #print axioms TxV.AsyncMemoryBank.c22_next_cycle
 #print axioms TxV.AsyncMemoryBank.c22_always_ready
+#print axioms TxV.AsyncMemoryBank.c22_ports_agree
+#print axioms TxV.AsyncMemoryBank.c22_reads_pure
+#print axioms TxV.AsyncMemoryBank.c22_idle_stable
